@@ -52,12 +52,12 @@ def opOb (args : List String) (impl : String) : Verdict :=
         (resHashStr r.res, r.sink)
       let res : Option (String × List UInt8 × Bool) :=   -- (root, ob bytes, is pre-order)
         match entry with
-        | "sync-create-preMem" => some ((viaStore .preMem (zerosN obsize)).1, (viaStore .preMem (zerosN obsize)).2, true)
-        | "sync-create-postMem" | "sync-post-order" | "fsm-post-order" => some (viaWriter.1, viaWriter.2, false)
-        | "sync-sized-preIo" | "fsm-sized-preIo" | "sync-create-preIo" | "fsm-create-preIo" => some ((viaStore .preIo []).1, (viaStore .preIo []).2, true)
-        | "sync-sized-postIo" | "fsm-sized-postIo" | "sync-create-postIo" | "fsm-create-postIo" => some ((viaStore .postIo []).1, (viaStore .postIo []).2, false)
-        | "sync-init-preIo" | "fsm-init-preIo" => some ((viaStore .preIo (staleN obsize)).1, (viaStore .preIo (staleN obsize)).2, true)
-        | "sync-init-postIo" | "fsm-init-postIo" => some ((viaStore .postIo (staleN obsize)).1, (viaStore .postIo (staleN obsize)).2, false)
+        | "sync-create-preMem" => let r := viaStore .preMem (zerosN obsize); some (r.1, r.2, true)
+        | "sync-create-postMem" | "sync-post-order" | "fsm-post-order" => let r := viaWriter; some (r.1, r.2, false)
+        | "sync-sized-preIo" | "fsm-sized-preIo" | "sync-create-preIo" | "fsm-create-preIo" => let r := viaStore .preIo []; some (r.1, r.2, true)
+        | "sync-sized-postIo" | "fsm-sized-postIo" | "sync-create-postIo" | "fsm-create-postIo" => let r := viaStore .postIo []; some (r.1, r.2, false)
+        | "sync-init-preIo" | "fsm-init-preIo" => let r := viaStore .preIo (staleN obsize); some (r.1, r.2, true)
+        | "sync-init-postIo" | "fsm-init-postIo" => let r := viaStore .postIo (staleN obsize); some (r.1, r.2, false)
         | e =>
           let k := if e.startsWith "sync-outboard-" then (e.drop 14).toString
                    else if e.startsWith "fsm-outboard-" then (e.drop 13).toString else ""
